@@ -152,7 +152,9 @@ for _style in STYLES:
                           confined(style, c), e, ["C09", "C08"], "post")
                 ctx.canary("canary: the comment is the text itself", c == text.z(), e)
             ctx.trust("str.splitlines()+' '.join: the result contains no line break (assumed; bounded differential)",
-                      "str.replace(a, b): a no longer occurs when b does not contain a (assumed; bounded differential)")
+                      "str.replace(a, b): a no longer occurs when b does not contain a (assumed; bounded differential)",
+                      "map-then-join (only when the code maps over text.splitlines()): every line is a piece of the text without line breaks; ' '.join of the mapped lines has no line break / no "
+                      "occurrence of a non-empty space-free pattern when that is proved of the generic mapped line (assumed of python's join; bounded differential)")
         return u
     _mk(_style)
 
